@@ -14,6 +14,8 @@ def classify(prop, cfg, impl_line, model_line):
         kind = "V" if "V" in rel else "C"
     if (impl_line or "").startswith("TTL") or (model_line or "").startswith("TTL"):
         kind = "T"
+    if (impl_line or "").startswith("HANG") or (impl_line or "").startswith("STUCK"):
+        return True, "a request that never returned"
     return kind in rel, KINDS.get(kind, kind)
 
 
@@ -87,7 +89,7 @@ def run_property(prop, tier, seed, replay):
         obligations += 1  # the seq correspondence
         diffs = run_seq_suites(prop, cfg, tier, seed, work, report)
         monitor = []
-        if cfg.get("conc") or cfg.get("limit") or cfg.get("sweep") or cfg.get("cfg"):
+        if cfg.get("conc") or cfg.get("limit") or cfg.get("sweep") or cfg.get("cfg") or cfg.get("pol"):
             obligations += 1
             cd, monitor = run_conc_suites(prop, cfg, tier, seed, work, report)
             diffs += cd
@@ -132,7 +134,7 @@ def run_property(prop, tier, seed, replay):
             continue
         body = {"what": ("%s: outcome of case %s is not that of any one-at-a-time order (class %s)" % (m["suite"], m["case"], cls))
                         if m["kind"] == "NONLIN" else ("%s: %s" % (m["suite"], " ".join([m["case"], cls]))),
-                "profile": "conc", "trace": m["trace"], "theorems": names}
+                "profile": "pol" if m["suite"] == "conc_pol" else "conc", "trace": m["trace"], "theorems": names}
         key = json.dumps(m["trace"])
         if key in seen or len(violations) >= 5:
             continue
@@ -147,7 +149,7 @@ def run_property(prop, tier, seed, replay):
                 prop, kf.get("class"), kf.get("site", "?"), kf["what"]))
     for d in diffs[:5]:
         tag, cid, trace_lines, idx, il, ml = d
-        profile = "conn" if tag.startswith("conn_") else ("conc" if tag.startswith("conc_") else ("limit" if tag == "limit" else ("cfg" if tag == "cfg" else "seq")))
+        profile = "conn" if tag.startswith("conn_") else ("pol" if tag == "conc_pol" else "conc" if tag.startswith("conc_") else ("limit" if tag == "limit" else ("cfg" if tag == "cfg" else "seq")))
         with BuildLock():
             small = minimize(trace_lines, work, profile)
         relevant, kind = classify(prop, cfg, il, ml)
